@@ -3,6 +3,9 @@ error (exit 2), never a VIOLATION."""
 import logging
 import os
 import sys
+import warnings
+
+warnings.filterwarnings('ignore')
 
 from .common import REPO, HarnessError
 
